@@ -31,7 +31,7 @@ type Prog struct {
 	All    []*packages.Package          // root packages, sorted
 	SSA    *ssa.Program
 	SSAPkg map[string]*ssa.Package
-	Whole  bool // dependencies loaded with syntax (thorough)
+	Whole  bool              // dependencies loaded with syntax (thorough)
 	Layers *packages.Package // gopacket/layers with syntax (for C06 tables), lazily loaded
 
 	srcFuncs []*ssa.Function
